@@ -15,6 +15,7 @@ import (
 	"runtime"
 	"strings"
 	"sync"
+	"unsafe"
 
 	geom "github.com/twpayne/go-geom"
 	"github.com/twpayne/go-geom/encoding/geojson"
@@ -82,8 +83,8 @@ func (prop) Plan(tier string) []core.Phase {
 
 func (prop) Describe() core.Description {
 	return core.Description{
-		Level: "exploration",
-		Rule: "A scenario is a pool of shared arguments built from models (geometries of all types and layouts, coordinates, flat arrays with spare capacity incl. >50-point and duplicate-heavy point sets, WKB/EWKB bytes, hex, WKT, GeoJSON and IGC text with spare capacity), a list of calls drawn from a table of every non-mutating exported entry point, and per worker goroutine (2-16) an ordered program of those calls with Gosched points, plus GOMAXPROCS. Solo phase: each distinct call runs alone twice with to-capacity snapshots before/after. Concurrent phase: all workers released by one barrier, unsynchronised until the join. Phase 'race' runs in the -race binary (a report aborts the worker with exit 66 and is attributed to the scenario persisted before the run); phase 'plain' runs more workers and scenarios without the detector. A run is non-trivial when at least two workers executed calls that share at least one pool argument.",
+		Level:        "exploration",
+		Rule:         "A scenario is a pool of shared arguments built from models (geometries of all types and layouts, coordinates, flat arrays with spare capacity incl. >50-point and duplicate-heavy point sets, WKB/EWKB bytes, hex, WKT, GeoJSON and IGC text with spare capacity), a list of calls drawn from a table of every non-mutating exported entry point, and per worker goroutine (2-16) an ordered program of those calls with Gosched points, plus GOMAXPROCS. Solo phase: each distinct call runs alone twice with to-capacity snapshots before/after. Concurrent phase: all workers released by one barrier, unsynchronised until the join. Phase 'race' runs in the -race binary (a report aborts the worker with exit 66 and is attributed to the scenario persisted before the run); phase 'plain' runs more workers and scenarios without the detector. A run is non-trivial when at least two workers executed calls that share at least one pool argument.",
 		StateMeasure: "distinct (set of function pairs that overlapped on a shared argument, GOMAXPROCS, worker count) tuples",
 		Assumptions: []string{
 			"the Go race detector reports from happens-before (vector clocks), so a report does not depend on the observed interleaving; its bounded shadow memory is mitigated by short programs (<= 6 calls per worker) and many runs",
@@ -400,7 +401,180 @@ func runCall(c *Call, items []*item) (out string) {
 			out = scrub(fmt.Sprintf("panic: %v", r))
 		}
 	}()
-	return canon(f.f(c, args))
+	v := f.f(c, args)
+	out = canon(v)
+	if !returnsView[c.Fn] && !aliasesArgs(v, args) {
+		// the result is the caller's: it is overwritten right away. A result
+		// that is really part of an argument or of hidden shared state then
+		// shows up as a changed argument, a changed later result or a race.
+		scribbleResult(v)
+	}
+	return out
+}
+
+// returnsView names the calls whose results are documented views into their
+// argument (part accessors, sub-line strings); those are left alone.
+var returnsView = map[string]bool{"T.Part": true, "LineString.SubLineString": true}
+
+// span is the address range of a slice's backing array up to its capacity.
+type span struct{ lo, hi uintptr }
+
+func spanF(f []float64) span {
+	if cap(f) == 0 {
+		return span{}
+	}
+	p := uintptr(unsafe.Pointer(unsafe.SliceData(f)))
+	return span{p, p + 8*uintptr(cap(f))}
+}
+
+func spanB(b []byte) span {
+	if cap(b) == 0 {
+		return span{}
+	}
+	p := uintptr(unsafe.Pointer(unsafe.SliceData(b)))
+	return span{p, p + uintptr(cap(b))}
+}
+
+func (a span) meets(b span) bool { return a.lo < b.hi && b.lo < a.hi && a.lo != a.hi && b.lo != b.hi }
+
+func geomSpans(g geom.T, out *[]span) {
+	if g == nil {
+		return
+	}
+	if gc, ok := g.(*geom.GeometryCollection); ok {
+		if gc != nil {
+			for _, c := range gc.Geoms() {
+				geomSpans(c, out)
+			}
+		}
+		return
+	}
+	defer func() { _ = recover() }() // typed nil pointers
+	*out = append(*out, spanF(g.FlatCoords()))
+}
+
+func valueSpans(v any, out *[]span) {
+	switch t := v.(type) {
+	case []float64:
+		*out = append(*out, spanF(t))
+	case geom.Coord:
+		*out = append(*out, spanF(t))
+	case []byte:
+		*out = append(*out, spanB(t))
+	case geom.T:
+		geomSpans(t, out)
+	case []any:
+		for _, x := range t {
+			valueSpans(x, out)
+		}
+	}
+}
+
+// aliasesArgs reports whether any coordinate or byte storage of the result
+// lies inside storage of an argument: some functions return (parts of) their
+// argument for trivial inputs, which the property does not forbid; such a
+// result is not overwritten (that would be the harness changing the argument).
+func aliasesArgs(v any, args []*item) bool {
+	var rs, as []span
+	valueSpans(v, &rs)
+	if len(rs) == 0 {
+		return false
+	}
+	for _, a := range args {
+		switch a.kind {
+		case "g":
+			geomSpans(a.g, &as)
+		case "c":
+			as = append(as, spanF(a.c))
+		case "f":
+			as = append(as, spanF(a.f))
+		case "b", "j", "i":
+			as = append(as, spanB(a.b))
+		}
+	}
+	for _, r := range rs {
+		for _, a := range as {
+			if r.meets(a) {
+				return true
+			}
+		}
+	}
+	return false
+}
+
+func scribbleResult(v any) {
+	switch t := v.(type) {
+	case []float64:
+		for i := range t {
+			t[i] = -9.75e9
+		}
+	case geom.Coord:
+		for i := range t {
+			t[i] = -9.75e9
+		}
+	case []int:
+		for i := range t {
+			t[i] = -99
+		}
+	case []byte:
+		for i := range t {
+			t[i] = 0xa5
+		}
+	case geom.T:
+		scribbleGeom(t)
+	case []any:
+		for _, x := range t {
+			scribbleResult(x)
+		}
+	}
+}
+
+func scribbleGeom(g geom.T) {
+	if g == nil {
+		return
+	}
+	switch t := g.(type) {
+	case *geom.GeometryCollection:
+		if t == nil {
+			return
+		}
+		for _, c := range t.Geoms() {
+			scribbleGeom(c)
+		}
+		return
+	case *geom.Point:
+		if t == nil {
+			return
+		}
+	case *geom.LineString:
+		if t == nil {
+			return
+		}
+	case *geom.LinearRing:
+		if t == nil {
+			return
+		}
+	case *geom.Polygon:
+		if t == nil {
+			return
+		}
+	case *geom.MultiPoint:
+		if t == nil {
+			return
+		}
+	case *geom.MultiLineString:
+		if t == nil {
+			return
+		}
+	case *geom.MultiPolygon:
+		if t == nil {
+			return
+		}
+	}
+	fc := g.FlatCoords()
+	for i := range fc {
+		fc[i] = -9.75e9
+	}
 }
 
 func short(s string) string {
